@@ -35,6 +35,19 @@ def programs(tier):
     progs.append(("in-place-fill", {
         "funcs": [mkfunc("R", calls=[call("D")], reads=["GL", "GD"], rich=False), mkfunc("D", kind="plain", reads=["GL"], rich=False)],
         "vars": {"GL": [1], "GD": {}}, "stmts": {"@fill_list": "GL.append(2)", "@fill_dict": "GD['k'] = 3", "@fill_dict2": "GD['a'] = 4"}}))
+    # a plain helper and a tracked variable that carry the names of builtins (defined before or after their user)
+    progs.append(("builtin-named-helpers", {
+        "funcs": [mkfunc("R", calls=[call("filter")], reads=["hash"], rich=False), mkfunc("filter", kind="plain", rich=False),
+                  mkfunc("S", calls=[call("R")], rich=False)],
+        "vars": {"hash": 11}, "late": ["hash"]}))
+    # helpers that share ONE code object and differ only in a default value (made by a factory), used by different
+    # memento functions: which of them is hashed first depends on the query order
+    progs.append(("factory-made-helpers", {
+        "funcs": [mkfunc("R1", calls=[call("double")], rich=False), mkfunc("R2", calls=[call("triple")], rich=False)],
+        "vars": {}, "fixed_order": True,
+        "stmts": {"@factory": "def make(k):\n    def scale(x, k=k):\n        return x * k\n    return scale", "@double": "double = make(2)",
+                  "@triple": "triple = make(3)"},
+        "order": ["@factory", "@double", "@triple", "R1", "R2"]}))
     # a memento function and a plain function of ANOTHER package, both referenced from the root (and through a helper)
     progs.append(("cross-package-siblings", {
         "funcs": [mkfunc("R", calls=[call("G", "xpkg"), call("K", "xpkg"), call("P")], rich=False),
@@ -76,6 +89,9 @@ def run(ctx):
         fa = [f["name"] for f in p["funcs"] if f["module"] == "a"] + list(p.get("stmts", {}))
         mem_a = [f["name"] for f in p["funcs"] if f["module"] == "a" and f["kind"] != "plain"]
         orders = list(itertools.permutations(fa)) if len(fa) <= 5 else [tuple(fa), tuple(reversed(fa))]
+        if p.get("fixed_order"):  # module-level statements first, in the given order; the functions after them in every order
+            pre = [n for n in p["order"] if n.startswith("@")]
+            orders = [tuple(pre) + perm for perm in itertools.permutations([n for n in p["order"] if not n.startswith("@")])]
         qorders = list(itertools.permutations(mem_a))
         if not thorough:
             qorders = qorders[:2] + qorders[-1:]
@@ -133,7 +149,7 @@ def run(ctx):
         calls = [[n, [1]] for n in mem_a] + [[n, []] for n in mem_a]
         fa = [f["name"] for f in p["funcs"] if f["module"] == "a"] + list(p.get("stmts", {}))
         store = os.path.join(top, "store%d" % pi)
-        t2.append((pi, calls, store, os.path.join(top, "p%d_o0" % pi), list(reversed(fa))))
+        t2.append((pi, calls, store, os.path.join(top, "p%d_o0" % pi), ([n for n in p["order"] if n.startswith("@")] + list(reversed([n for n in p["order"] if not n.startswith("@")]))) if p.get("fixed_order") else list(reversed(fa))))
     A = [{"root": r, "query_order": [], "store": st, "calls": c} for (pi, c, st, r, _) in t2]
     resA = seed_run((seeds[1], A))
     B = []
